@@ -195,8 +195,8 @@ func checkTreeInvariants(view string, t *crdt.Tree, excluded *int) *kit.Failure 
 	toks := xmlTokenize(xml)
 	inner := toks[1 : len(toks)-1]
 	for i := 0; i <= n; i++ {
-		if mixed && excluding("FINDPOS-MIXED") && mixedBoundary(inner, i) {
-			continue // FINDPOS-MIXED, see applyFree
+		if mixed && excluding("F37") && mixedBoundary(inner, i) {
+			continue // F37, see applyFree
 		}
 		pos, err := t.FindPos(i)
 		if err != nil {
@@ -227,8 +227,8 @@ func checkTreeInvariants(view string, t *crdt.Tree, excluded *int) *kit.Failure 
 		if mixed {
 			continue
 		}
-		if left != parent && left.IsText() && excluding("TOPATH-TOMBSTONE") {
-			// TOPATH-TOMBSTONE: TreePosToPath takes the raw child offset of a text
+		if left != parent && left.IsText() && excluding("F36") {
+			// F36: TreePosToPath takes the raw child offset of a text
 			// node (tombstones included) but sums over the visible children only,
 			// so ToPath is wrong (or panics) when a tombstoned sibling precedes the
 			// text node. Excluded by construction, reported as a finding.
@@ -468,7 +468,7 @@ func xmlTokenize(x string) []tok {
 
 // mixedBoundary reports whether index i (a boundary between the inner tokens)
 // lies right after a close tag and right before a text unit: FindPos resolves
-// such an index to the far side of the preceding text (FINDPOS-MIXED).
+// such an index to the far side of the preceding text (F37).
 func mixedBoundary(inner []tok, i int) bool {
 	return i > 0 && i < len(inner) && inner[i-1].kind == 'c' && inner[i].kind == 't'
 }
@@ -490,7 +490,7 @@ func balanced(inner []tok, from, to int) bool {
 }
 
 // mergePropagateRisk reports whether deleting [from,to) would hit finding
-// MERGE-PROPAGATE: the range fully contains a live element A that physically
+// F39: the range fully contains a live element A that physically
 // holds the tombstone X of an earlier merge source, while a live node that the
 // merge moved out of X (MergedFrom == X) lives outside A. Tree.Edit then also
 // tombstones that moved node (propagateMergeDeletes runs for every collected
@@ -563,7 +563,7 @@ func mergePropagateRisk(t *crdt.Tree, from, to int) bool {
 }
 
 // rangeNarrowingRisk reports whether Edit(from,to) would hit finding
-// RANGE-NARROWING: from's left sibling is an element with an earlier split
+// F47: from's left sibling is an element with an earlier split
 // sibling (InsNextID chain) that lives in to's parent while from's own parent
 // is a different node. Tree.Edit then "narrows" the collected range to start
 // after that split sibling, which can lie before from, and deletes live content
@@ -621,7 +621,7 @@ func applyFree(w *world, t *yjson.Tree, s Step, descOut *string, prefix string) 
 	toks := xmlTokenize(before)
 	inner := toks[1 : len(toks)-1]
 	haveModel := len(inner) == n // otherwise Len() is already off; the invariant check reports it
-	if haveModel && excluding("FINDPOS-MIXED") {
+	if haveModel && excluding("F37") {
 		moved := false
 		if mixedBoundary(inner, from) {
 			from++
@@ -635,16 +635,16 @@ func applyFree(w *world, t *yjson.Tree, s Step, descOut *string, prefix string) 
 			moved = true
 		}
 		if moved {
-			w.count("excluded:FINDPOS-MIXED")
+			w.count("excluded:F37")
 		}
 	}
-	if s.Op == "fedit" && excluding("MERGE-PROPAGATE") && mergePropagateRisk(t.Tree, from, to) {
+	if s.Op == "fedit" && excluding("F39") && mergePropagateRisk(t.Tree, from, to) {
 		to = from // keep the insertion, drop the deletion
-		w.count("excluded:MERGE-PROPAGATE")
+		w.count("excluded:F39")
 	}
-	if s.Op == "fedit" && excluding("RANGE-NARROWING") && rangeNarrowingRisk(t.Tree, from, to) {
+	if s.Op == "fedit" && excluding("F47") && rangeNarrowingRisk(t.Tree, from, to) {
 		to = from
-		w.count("excluded:RANGE-NARROWING")
+		w.count("excluded:F47")
 	}
 	if s.Op == "fstyle" {
 		key := []string{"b", "i"}[s.C%2]
@@ -730,7 +730,7 @@ func evalTree(c Case, trace bool) verdict {
 	reinit := func(r int) {
 		// the state a sync / snapshot / GC left behind must already satisfy the
 		// invariants; if it does not, no local call is to blame: the case is
-		// dropped and counted (REMOTE-INCONSISTENT, reported as a finding)
+		// dropped and counted (F38, reported as a finding)
 		if f := checkTreeInvariants(fmt.Sprintf("r%d after sync", r), rootTree(w, r), nil); f != nil && remoteBad == nil {
 			remoteBad = f
 		}
@@ -793,12 +793,12 @@ func evalTree(c Case, trace bool) verdict {
 			}
 		}
 		if remoteBad != nil {
-			if !excluding("REMOTE-INCONSISTENT") {
+			if !excluding("F38") {
 				remoteBad.Msg = fmt.Sprintf("before step %d: %s", si, remoteBad.Msg)
 				w.logf("FAIL %s", remoteBad.Error())
 				return w.finish(remoteBad, false)
 			}
-			w.count("excluded:REMOTE-INCONSISTENT")
+			w.count("excluded:F38")
 			w.logf("DISCARDED: %s", remoteBad.Error())
 			return w.finish(nil, false)
 		}
@@ -855,7 +855,7 @@ func evalTree(c Case, trace bool) verdict {
 			ex := 0
 			f := checkTreeInvariants("clone", t.Tree, &ex)
 			if ex > 0 {
-				w.count("excluded:TOPATH-TOMBSTONE")
+				w.count("excluded:F36")
 			}
 			return f
 		})
